@@ -19,6 +19,26 @@ CLAIMED = {
          "node set, edge bounds, root list, monotonicity in depth; termination by unwinding assertion. N<=3 general (4 in the fan-out family), E<=2, T<=2.", "3.C15"),
  "C16": ("Plain lookups return exactly the matching nodes (pointer identity, each once) for symbolic ids/names/identifiers incl. repeated ids; "
          "GetMatchingNode against the documented rule for every map iteration order (order is a decision variable).", "3.C16"),
+ "C07": ("Serialize of every registered driver (CycloneDX 1.4/1.5, SPDX 2.3) on arbitrary Document values built by decisions (absent metadata / node list / "
+         "document-type parts, full-range enum numbers, symbolic ids with dangling/cyclic/repeated shapes, auto-generated ids): no panic, no process exit, "
+         "output or error; independence from earlier serializations (history harness). Render/JSON text is outside (see C07 note in DESIGN).", "3.C07"),
+ "C11": ("Write-set monitor: every store (incl. appends into spare capacity, sort swaps, copy) into memory reachable from the operands of every listed "
+         "read-only operation is a violation on that path, with a value-changing witness from the solver; order-relevant data symbolic.", "3.C11"),
+ "C12": ("Havoc-and-compare: every mutable location reachable from a copy/result gets a fresh symbolic value and the source's snapshot must be provably "
+         "unchanged (and vice versa), for Node, Edge, Person, ExternalReference, NodeList copies, Union/Intersect results, and call histories.", "3.C12"),
+ "C13": ("Node/Edge/NodeList equality vs same-content (multisets, dates to the second) per schema field, symmetry, transitivity, checksum agreement, "
+         "permutation invariance; flattened-string collisions are a listed known finding keyed by a region predicate; outside it equality must discriminate.", "3.C13"),
+ "C14": ("Node.Diff: nil iff the attribute has the same content (sets / seconds), count, and reconstruction of the second node from Added/Removed, per "
+         "schema field and for field pairs; nested-element identity collisions are a listed known finding.", "3.C14"),
+ "C17": ("Lock-set analysis of every package-level entry point of reader/writer (+ identifier generation) executed symbolically in pairs with call-granular "
+         "interleaving: unprotected conflicting accesses to pre-existing memory = data race; several atomic steps on one shared object within a call = not "
+         "linearizable. Counterexamples replayed under go test -race.", "3.C17"),
+ "C18": ("Histories of 3 constructor calls with decision-chosen options and symbolic option values; every instance compared with f(defaults, own options); "
+         "per-call options observed through recording drivers; later instances pristine.", "3.C18"),
+ "C19": ("Store/Retrieve on a file-system + protobuf-codec model: symbolic identifiers, unprivileged process, injected I/O failures, corrupted entries; "
+         "round trip, isolation, confinement, NoClobber, overwrite, error returns.", "3.C19"),
+ "C20": ("Crash point (every mutating call boundary) and torn-write length (solver variable) during Store on the file-system model, first store and "
+         "overwrite; Retrieve afterwards returns old, new or error; other entries intact. Native replay kills a child inside the write (RLIMIT_FSIZE).", "3.C20"),
 }
 
 NA_REASON = "check under construction in this session; not yet claimed"
@@ -47,7 +67,7 @@ def main():
             m["not_applicable"].append({"property_id": p, "reason": NA.get(p, NA_REASON)})
     json.dump(m, open("/verif/MANIFEST.json", "w"), indent=1)
 
-NA = {}
+NA = {p: "the abstract JSON layer (encoding/json cut at the value tree) is still under construction in this session; the property is not claimed yet" for p in ["C01","C02","C03","C04","C05","C06"]}
 
 if __name__ == "__main__":
     main()
